@@ -6,7 +6,7 @@ from checks.formlib import cs
 HEADER = """From Coq Require Import ZArith NArith List Bool String.
 From CE Require Import Str Comp ESpec ESpecCheck.
 Import ListNotations."""
-THEOREMS = []
+THEOREMS = ["C16_parse_total", "C16_parse_sound", "C16_roundtrip", "C16_index_str", "C16_table_roundtrip"]
 
 
 def eout(o):
